@@ -421,11 +421,14 @@ func c32CheckSpec(c *kit.Case, in c32SpecInput) {
 // ---------------------------------------------------------------- WorkReportCompute
 
 // The guarantor path: digests and specification as assembled into a report,
-// with a harness-owned executor standing in for the PVM. Only outcomes whose
-// treatment by 14.11 is not in question are generated: the executor returns
-// exactly the declared number of exports and outputs far below W_R, so the
-// expected digest result is the executor's result and the expected exports
-// are the returned segments (ok) or zero segments (error).
+// with a harness-owned executor standing in for the PVM. The expected digest result
+// follows GP 14.11 in its order: with z = |o| + the output sizes of the EARLIER items
+// whose final result is a blob, item j is report-oversize when |r| + z > W_R, else
+// bad-exports when the number of returned segments differs from the declared count,
+// else the executor's error, else ok with r and the returned segments; every non-ok
+// item contributes its declared number of zero segments. Pad (extra output octets)
+// and a returned-segment count that differs from the declared one reach the first
+// two clauses.
 
 type c32ReportInput struct {
 	Core       uint16     `json:"core"`
@@ -434,7 +437,18 @@ type c32ReportInput struct {
 	Hash       []byte     `json:"hash"`
 	BundleLen  int        `json:"bundle_len"`
 	Items      []c32Item  `json:"items"`
-	Exports    [][]c32Seg `json:"exports"` // per item, len == ExportCount
+	Exports    [][]c32Seg `json:"exports"` // per item: the segments the refinement returns (len != ExportCount: bad exports)
+	Pad        []int      `json:"pad,omitempty"` // per item: extra output octets appended to Data (ok results)
+}
+
+func (in *c32ReportInput) output(j int) []byte {
+	out := append([]byte(nil), in.Items[j].Data...)
+	if j < len(in.Pad) {
+		for k := 0; k < in.Pad[j]; k++ {
+			out = append(out, byte(k*7+j))
+		}
+	}
+	return out
 }
 
 type c32Exec struct {
@@ -452,7 +466,7 @@ func (e *c32Exec) RefineInvoke(input PVM.RefineInput) PVM.RefineOutput {
 	it := e.in.Items[j]
 	out := PVM.RefineOutput{WorkResult: c32Kinds[it.Kind], Gas: types.Gas(it.GasUsed)}
 	if it.Kind == 0 {
-		out.RefineOutput = append([]byte(nil), it.Data...)
+		out.RefineOutput = e.in.output(j)
 	}
 	for _, s := range e.in.Exports[j] {
 		out.ExportSegment = append(out.ExportSegment, s.segment())
@@ -480,7 +494,18 @@ func c32GenReport(rt *rapid.T) c32ReportInput {
 			it.Kind = 2
 		}
 		in.Items = append(in.Items, it)
-		in.Exports = append(in.Exports, c32GenSegs(rt, int(it.ExportCount)))
+		got := int(it.ExportCount)
+		if rapid.IntRange(0, 5).Draw(rt, "wrong_export_count") == 0 {
+			got = rapid.IntRange(0, 5).Draw(rt, "returned_exports")
+		}
+		in.Exports = append(in.Exports, c32GenSegs(rt, got))
+		pad := 0
+		if rapid.IntRange(0, 2).Draw(rt, "big_output") == 0 {
+			// around W_R = 48 KiB in total: a quarter, a half, all of it, one more
+			pad = rapid.SampledFrom([]int{12 * 1024, 16 * 1024, 24 * 1024, 30 * 1024, 40 * 1024, 48*1024 - 41, 48 * 1024, 48*1024 + 1}).Draw(rt, "pad")
+			pad -= rapid.IntRange(0, 60).Draw(rt, "pad_minus")
+		}
+		in.Pad = append(in.Pad, pad)
 	}
 	return in
 }
@@ -491,10 +516,13 @@ func c32CheckReport(c *kit.Case, in c32ReportInput) {
 	}
 	total := 0
 	for j, it := range in.Items {
-		if !it.valid() || it.Kind == 3 || it.Kind == 4 || len(in.Exports[j]) != int(it.ExportCount) || len(it.Data) > 1024 {
+		if !it.valid() || it.Kind == 3 || it.Kind == 4 || it.ExportCount > 8 || len(in.Exports[j]) > 8 || len(it.Data) > 1024 {
 			return
 		}
-		total += len(in.Exports[j])
+		if j < len(in.Pad) && (in.Pad[j] < 0 || in.Pad[j] > 64*1024) {
+			return
+		}
+		total += int(it.ExportCount)
 	}
 	if len(in.AuthOutput) > 1024 || total > 64 {
 		return
@@ -555,23 +583,45 @@ func c32CheckReport(c *kit.Case, in c32ReportInput) {
 	}
 	var segs []types.ExportSegment
 	knownMsg := ""
+	z := len(in.AuthOutput) // |o| + outputs of the earlier items that stayed blobs
 	for j, it := range in.Items {
-		wantData := it.Data
-		if it.Kind != 0 {
+		var r []byte
+		if it.Kind == 0 {
+			r = in.output(j)
+		}
+		wantType, wantData := c32Kinds[it.Kind], r
+		switch {
+		case len(r)+z > types.WorkReportOutputBlobsMaximumSize:
+			wantType, wantData = types.WorkExecResultReportOversize, nil
+			c.Class("report_item_oversize")
+			if j+1 < len(in.Items) {
+				c.Class("report_item_oversize_not_last")
+			}
+		case len(in.Exports[j]) != int(it.ExportCount):
+			wantType, wantData = types.WorkExecResultBadExports, nil
+			c.Class("report_item_bad_exports")
+		case it.Kind != 0:
 			wantData = nil
 		}
+		ok := wantType == types.WorkExecResultOk
+		if ok {
+			z += len(r)
+		}
 		// data is compared for ok results only: for an error the digest carries no blob
-		msg, known := c32CheckDigest(it, report.Results[j], c32Kinds[it.Kind], wantData, it.Kind == 0)
+		msg, known := c32CheckDigest(it, report.Results[j], wantType, wantData, ok)
 		if msg != "" {
 			if !known {
-				c.Failf("digest %d of the report: %s", j, msg)
+				c.Failf("digest %d of the report (item returned kind %d, %d output octets, %d of %d declared exports; z before it = %d): %s",
+					j, it.Kind, len(r), len(in.Exports[j]), it.ExportCount, z-map[bool]int{true: len(r), false: 0}[ok], msg)
 			}
 			knownMsg = fmt.Sprintf("digest %d of the report: %s", j, msg)
 		}
-		for _, s := range in.Exports[j] {
-			if it.Kind == 0 {
+		if ok {
+			for _, s := range in.Exports[j] {
 				segs = append(segs, s.segment())
-			} else {
+			}
+		} else {
+			for k := 0; k < int(it.ExportCount); k++ {
 				segs = append(segs, types.ExportSegment{})
 			}
 		}
